@@ -30,7 +30,7 @@ CLAIMS = {
     'C15': ('proof', 'Lean model of dd.mdd.MDD (n-ary nodes, first edge regular, set allocator with recorded pop schedule) and of bdd_to_mdd; MInv, find_or_add / ite / apply (regenerated table) / canonicity / collection (either root sign) proved, every reachable MDD state good; bdd_to_mdd proved correct AND total (no assertion of the code can fire) for any setting of dynamic reordering (reorder into zones via the C07 sort theorem, cofactors follow edges only), held BDD functions preserved; tied by exact-state correspondence and an evaluation oracle on every integer assignment', 'Lean 4 proof + regenerated tables + differential correspondence'),
     'C16': ('proof', 'abstract DDDMP file model (header tables, node list, re-indexing, bottom-up rebuild, root translation) with C16_load_spec proved for every well-formed file and numbering; text files tied by correspondence (the harness writes text and abstract encodings from the same data)', 'Lean 4 proof + differential correspondence'),
     'C17': ('proof', 'total step functions: a rejected call keeps invariant, order, counts and every reference (DDProps/C17), reordering off (every user operation, every history) and ON (generic theorem for the decorator: failure before the request, after it, or in the retry after sifting; reordering stays enabled) + rejected add_var / undeclare_vars / swap / reorder / load change nothing; tied by malformed-call injection incl. partly valid calls and a trigger sweep of rejected calls', 'Lean 4 proof + differential correspondence'),
-    'C19': ('proof', 'source-level only (the C extensions cannot be built here): translators over the four .pyx files regenerate Lean tables on every run; cApply_sound / cVocab / cQuant_roles (every back end, after the repair of F6) / refTraces_balanced / refTraces_noFloatingUse / cacheTags_distinct re-decided on them; the 7 functions the reader cannot follow are pinned by text fingerprint to a review by hand (uncovered_reviewed); partial by nature: relative to the line-structured reader and the hand-written C API semantics; nothing is executed', 'Lean 4 decide over tables regenerated from the .pyx sources'),
+    'C19': ('proof', 'source-level only (the C extensions cannot be built here): translators over the four .pyx files regenerate Lean tables on every run; cApply_sound / cVocab / cQuant_roles (every back end, after the repair of F6) / refTraces_balanced / refTraces_noFloatingUse (references kept in C arrays and Python containers are followed too; only test helpers are not covered) / refTraces_arraysFreed / cacheTags_distinct re-decided on them; partial by nature: relative to the line-structured reader and the hand-written C API semantics; nothing is executed', 'Lean 4 decide over tables regenerated from the .pyx sources'),
     'C18': ('proof', 'structural views on the model (DDProps/C18) tied by re-reading the exported graphs', 'Lean 4 proof + differential correspondence'),
 }
 
